@@ -175,8 +175,9 @@ func runVM(analyzed map[string]aast.AnalyzedProgram, o runOpts) (res string) {
 	if i != nil {
 		switch it := (*i).(type) {
 		case value.VmFatalException:
-			return fmt.Sprintf("FATAL kind=%s msg=%s span=%s out=%s trig=%s", it.ErrKind.String(), hexs(firstLine(it.Message())),
-				spanStr(it.Span), hexs(out.String()), hexs(trig.String()))
+			// calls: the rest of the message (the stack trace with the mangled names of the active functions)
+			return fmt.Sprintf("FATAL kind=%s msg=%s span=%s out=%s trig=%s calls=%s", it.ErrKind.String(), hexs(firstLine(it.Message())),
+				spanStr(it.Span), hexs(out.String()), hexs(trig.String()), hexs(strings.TrimPrefix(it.Message(), firstLine(it.Message()))))
 		case value.VmTerminationInterrupt:
 			return fmt.Sprintf("TERM out=%s", hexs(out.String()))
 		default:
